@@ -460,3 +460,39 @@ func hC06RPC() {
 		verifAssert(path != "/p.S/Ab" && path != "/p.S/Abc", "C06: a registered RPC path is found")
 	}
 }
+
+// hC06AllowOrder: the 405 answer for a path whose template has several methods names the same methods in the
+// same order every time: the outcome of a request is a function of the request (C15), not of the order in
+// which a Go map happens to be ranged over. The engine explores the map iteration orders of both calls; the
+// native twin repeats the comparison 200 times.
+func hC06AllowOrder() {
+	specs := []routeSpec{{"GET", "/v1/{name}"}, {"POST", "/v1/{name}"}, {"DELETE", "/v1/{name}"}}
+	trie, _, ok := buildTrie(specs, 0)
+	verifAssert(ok, "corpus table accepted")
+	if !ok {
+		return
+	}
+	allow := func() string {
+		op := &operation{request: &http.Request{Method: "PUT", URL: &url.URL{Path: "/v1/q"}}}
+		op.client.protocol = restClientProtocol{}
+		verifFixedMapOrder(false)
+		rerr := op.resolveMethod(&Transcoder{restRoutes: *trie})
+		verifFixedMapOrder(true)
+		if herr, isHTTP := rerr.(*httpError); isHTTP && herr.code == 405 {
+			return herr.header.Get("Allow")
+		}
+		return "?"
+	}
+	a, b := allow(), allow()
+	verifObsStr("allow", a)
+	verifReach("method-not-allowed-twice")
+	verifAssert(a != "?" && b != "?", "C06: a path whose template lacks the request's method gets 405 with an Allow header")
+	verifAssert(a == b, "C06: the Allow header of a 405 answer does not depend on map iteration order (same request, same answer)")
+	n := 0
+	for _, m := range strings.Split(a, ",") {
+		if m == "GET" || m == "POST" || m == "DELETE" {
+			n++
+		}
+	}
+	verifAssert(n == 3 && len(strings.Split(a, ",")) == 3, "C06: Allow names exactly the methods the template has")
+}
